@@ -9,11 +9,13 @@ package dvfib
 import (
 	"bufio"
 	"fmt"
+	"hash/fnv"
 	"math/rand"
 	"sort"
 	"strconv"
 	"strings"
 	"testing/synctest"
+	"time"
 
 	"github.com/named-data/ndnd/dv/config"
 	"github.com/named-data/ndnd/dv/dv"
@@ -21,6 +23,7 @@ import (
 	"github.com/named-data/ndnd/dv/table"
 	"github.com/named-data/ndnd/dv/tlv"
 	enc "github.com/named-data/ndnd/std/encoding"
+	mgmt "github.com/named-data/ndnd/std/ndn/mgmt_2022"
 )
 
 var routerPoolStr = []string{"/net/me", "/net/a", "/net/b", "/net/c", "/net/d", "/net/e", "/net/a/sub"}
@@ -52,6 +55,18 @@ type fibCase struct {
 	routers []enc.Name // routerPool (index 0 = this router)
 	pfxs    []enc.Name
 	hashes  map[uint64]string
+
+	// executor histories (kind "fib ... x"): the REAL NfdMgmtThread.Start runs against a stand-in forwarder whose
+	// ExecMgmtCmd fails the first k attempts of chosen commands
+	execMode  bool
+	faultSeed uint64
+	perm      bool
+	inst      map[*mgmt.ControlArgs]int
+	tries     map[int]int
+	failK     map[int]int
+	occ       map[string]int
+	attLog    []string
+	fwd       map[string]uint64
 }
 
 func dvPrefix(router enc.Name) enc.Name {
@@ -281,7 +296,18 @@ func (c *fibCase) exec(op string) {
 		synctest.Wait()
 		fmt.Fprintf(c.w, "obs apply %d %s %s %s %d %s\n", c.in.id(R(f[1])), f[2], seq(adds), seq(rems), d, idsCSV(ids))
 		return
+	case "settle":
+		c.settle()
+		return
 	case "fu":
+		if c.execMode {
+			c.dumpTables()
+			fmt.Fprintln(c.w, "go fu")
+			c.r.Vf19FibUpdate()
+			synctest.Wait()
+			c.obsFib()
+			return
+		}
 		c.r.Vf19Nfdc().Vf19Drain() // commands of neighbour (un)registration since the last update are not the installer's
 		c.dumpTables()
 		fmt.Fprintln(c.w, "go fu")
@@ -298,9 +324,103 @@ func (c *fibCase) exec(op string) {
 
 var _ = table.NewRib
 
+// startExecutor starts the real management thread of the router against the stand-in forwarder.
+func (c *fibCase) startExecutor(seed uint64, perm bool) {
+	c.execMode, c.faultSeed, c.perm = true, seed, perm
+	c.inst, c.tries, c.failK, c.occ = map[*mgmt.ControlArgs]int{}, map[int]int{}, map[int]int{}, map[string]int{}
+	c.fwd = map[string]uint64{}
+	c.eng.onExec = func(module string, cmd string, args any) error {
+		a, _ := args.(*mgmt.ControlArgs)
+		cs := c.cmdStr(nfdc.NfdMgmtCmd{Module: module, Cmd: cmd, Args: a})
+		id, ok := c.inst[a]
+		if !ok {
+			id = len(c.inst) + 1
+			c.inst[a] = id
+			c.occ[cs]++
+			// the fault pattern depends only on the command's content and on how often that content occurred, so a
+			// replay hits the same commands whatever order Go's map iteration emits them in
+			h := fnv.New64a()
+			fmt.Fprintf(h, "%d|%s|%d", c.faultSeed, cs, c.occ[cs])
+			r := h.Sum64() % 100
+			k := 0
+			switch {
+			case cs == "o":
+				k = 0
+			case r < 72:
+				k = 0
+			case r < 88:
+				k = 1
+			case r < 97 || !c.perm:
+				k = 2
+			default:
+				k = 7 // more than any retry budget: the command is dropped
+			}
+			c.failK[id] = k
+		}
+		c.tries[id]++
+		if c.tries[id] <= c.failK[id] {
+			c.attLog = append(c.attLog, fmt.Sprintf("%d|%s|F", id, cs))
+			return fmt.Errorf("transient failure")
+		}
+		c.attLog = append(c.attLog, fmt.Sprintf("%d|%s|ok", id, cs))
+		f := strings.Split(cs, ":")
+		switch f[0] {
+		case "R":
+			v, _ := strconv.ParseUint(f[3], 10, 64)
+			c.fwd[f[1]+":"+f[2]] = v
+		case "U":
+			delete(c.fwd, f[1]+":"+f[2])
+		}
+		return nil
+	}
+	go c.r.Vf19Nfdc().Start()
+}
+
+func (c *fibCase) stopExecutor() {
+	if c.execMode {
+		synctest.Wait()
+		c.r.Vf19Nfdc().Stop()
+		synctest.Wait()
+	}
+}
+
+// settle lets the executor drain its queue (virtual time) and reports every ExecMgmtCmd call since the last settle and
+// the stand-in forwarder's route table.
+func (c *fibCase) settle() {
+	time.Sleep(120 * time.Second)
+	synctest.Wait()
+	att := "-"
+	if len(c.attLog) > 0 {
+		att = strings.Join(c.attLog, ",")
+	}
+	c.attLog = nil
+	fmt.Fprintf(c.w, "obs attempts %s\n", att)
+	var l []string
+	for k, v := range c.fwd {
+		l = append(l, fmt.Sprintf("%s:%d", k, v))
+	}
+	sort.Strings(l)
+	t := "-"
+	if len(l) > 0 {
+		t = strings.Join(l, ",")
+	}
+	fmt.Fprintf(c.w, "obs fwd %s\n", t)
+}
+
 func genFibCase(w *bufio.Writer, rng *rand.Rand, k int, budget int) []string {
 	c := newFibCase(w, rng.Int63())
 	hdr := fmt.Sprintf("case fib %d", k)
+	exec := rng.Intn(3) == 0
+	if exec { // every third fib history runs the real executor with transient (sometimes permanent) faults
+		seed, perm := uint64(rng.Int63()), rng.Intn(5) == 0
+		p := 0
+		if perm {
+			p = 1
+		}
+		hdr = fmt.Sprintf("case fib %d x %d %d", k, seed, p)
+		c.startExecutor(seed, perm)
+		defer c.stopExecutor()
+	}
 	fmt.Fprintln(w, hdr)
 	ops := []string{hdr}
 	do := func(op string) { ops = append(ops, op); c.exec(op) }
@@ -361,9 +481,15 @@ func genFibCase(w *bufio.Writer, rng *rand.Rand, k int, budget int) []string {
 			do(fmt.Sprintf("papply %d %d %s %s", router, reset, adds, rems))
 		default:
 			do("fu")
+			if exec && rng.Intn(3) == 0 {
+				do("settle")
+			}
 		}
 	}
 	do("fu")
+	if exec {
+		do("settle")
+	}
 	fmt.Fprintln(w, "end")
 	return ops
 }
@@ -371,7 +497,14 @@ func genFibCase(w *bufio.Writer, rng *rand.Rand, k int, budget int) []string {
 func replayFibCase(w *bufio.Writer, ops []string) {
 	h := strings.Fields(ops[0])
 	c := newFibCase(w, 7)
-	fmt.Fprintf(w, "case fib %s\n", h[2])
+	if len(h) >= 6 && h[3] == "x" {
+		seed, _ := strconv.ParseUint(h[4], 10, 64)
+		c.startExecutor(seed, h[5] == "1")
+		defer c.stopExecutor()
+		fmt.Fprintf(w, "case fib %s x %s %s\n", h[2], h[4], h[5])
+	} else {
+		fmt.Fprintf(w, "case fib %s\n", h[2])
+	}
 	for _, op := range ops[1:] {
 		if op == "" || op == "end" {
 			continue
